@@ -336,6 +336,9 @@ func (e *Engine) solveOb(o *Oblig, timeout int, thorough bool, dumpDir string) {
 		o.Status = "unknown"
 		// nobody decided it: one more attempt with a longer limit and another seed before giving up
 		// (keeps a heavily loaded machine from turning a slow proof into an alarm)
+		if os.Getenv("GOVC_NORETRY") != "" {
+			break // must-fail corpus runs: an undecided obligation of a deliberately broken tree needs no second opinion
+		}
 		retry := solverSpec{"z3-new", func(t int) []string {
 			return []string{"z3-new", fmt.Sprintf("-T:%d", t), "smt.random_seed=7", "-in"}
 		}}
